@@ -223,9 +223,13 @@ def run_translator(ck):
            "Definition MFS := Eval vm_compute in strs_eqb' gen_mform_source mform_source_model.\nPrint MFS.\n"
            "Definition PPG := Eval vm_compute in strs_eqb' gen_pprof_parse_guard pprof_parse_guard_model.\nPrint PPG.\n"
            "Definition PRF := Eval vm_compute in (profile_ok gen_on_profile_prog gen_profile_fields gen_profile_cols gen_profile_cols_unknown, "
-           "profile_request_cols gen_on_profile_prog gen_profile_cols 1).\nPrint PRF.\n")
-    txt = txt.replace("model.IngestPipe gen.GenGoroutinesWriter", "model.IngestPipe model.IngestFraming model.IngestShared gen.GenGoroutinesWriter")
-    ok, out = ck.coq_make(["model/IngestRobust.vo", "model/IngestPipe.vo", "model/IngestFraming.vo", "model/IngestShared.vo", "gen/GenGoroutinesWriter.vo"])
+           "profile_request_cols gen_on_profile_prog gen_profile_cols 1).\nPrint PRF.\n"
+           "Definition CFL := Eval vm_compute in (fetch_loop_ok gen_fetch_loop, strip_plain gen_fetch_loop).\nPrint CFL.\n"
+           "Definition CPG := Eval vm_compute in (ping_ok gen_ping_prog, strip_pplain gen_ping_prog).\nPrint CPG.\n"
+           "Definition CRL := Eval vm_compute in (gen_run_cases, gen_insert_ctx_writers).\nPrint CRL.\n"
+           "Definition CRLM := Eval vm_compute in (run_cases_model, insert_ctx_writers_model).\nPrint CRLM.\n")
+    txt = txt.replace("model.IngestPipe gen.GenGoroutinesWriter", "model.IngestPipe model.IngestFraming model.IngestShared model.IngestConn gen.GenGoroutinesWriter")
+    ok, out = ck.coq_make(["model/IngestRobust.vo", "model/IngestPipe.vo", "model/IngestFraming.vo", "model/IngestShared.vo", "model/IngestConn.vo", "gen/GenGoroutinesWriter.vo"])
     if not ok:
         ck.obligation("generated file compiles", False, out[-1500:])
         return False
@@ -318,6 +322,15 @@ def run_translator(ck):
                   "member undergoes the same sequence of changes), derived arguments are len(member) or the members' make expression -- computed inside Coq from the extracted lists "
                   "(non_literal_sites_are_uniform; uniform_sites_hand_over_slices_of_one_length says what it means)", val("LSB").replace(" ", "").startswith("(true,5,"),
                   "(all uniform, sites, functions with a non-uniform list) = " + val("LSB"))
+    ck.obligation("InsertServiceV2.fetchLoopIteration, regenerated statement by statement, is the modelled program: connect step (error path: return) BEFORE swapBuffers, "
+                  "copy of the portion's promises, releaseWaiting closure, client.Do, releaseWaiting(err), close on error; every other statement neither returns nor touches "
+                  "the client / the buffers / the promises (fetch_loop_matches_source; no_promise_is_ever_dropped is about it)", val("CFL").startswith("(true"),
+                  "(ok, regenerated steps without the plain ones) = %s; modelled: [CConnect; CSwap; CCapture; CDefRelease; CDo; CRelease; CCloseOnErr]" % val("CFL"))
+    ck.obligation("InsertServiceV2.ping is the modelled program: return without a client, return after a recent request, Ping, on error close + forget the client "
+                  "(watchdog_ping_matches_source)", val("CPG").startswith("(true"), "(ok, regenerated steps) = " + val("CPG"))
+    ck.obligation("InsertServiceV2.Run selects watchdog -> ping, ctx -> return, insertCtx -> fetchLoopIteration, and only Init / swapBuffers renew insertCtx "
+                  "(run_loop_in_source: after a refused dial the context stays done and the iteration is called again)", val("CRL") == val("CRLM") and val("CRL") != "?",
+                  "(select cases, functions assigning svc.insertCtx) = %s; modelled: %s" % (val("CRL"), val("CRLM")))
     dfp = val("DFP").replace("%N", "")
     probes = parse_probes(dfp)
     if dfp.replace(" ", "") != "([],[])" and probes in (None, ([], [])):
@@ -1049,6 +1062,203 @@ def run_shared(ck):
                     for c in cases if c["b"]["kind"] == "prom" and crosses(c["b"]["shape"])][:1])
 
 
+CONN_CORPUS = os.path.join(HERE, "corpus", "C05", "conn.jsonl")
+CONN_KEYS = ("id", "class", "kind", "pushes", "rows", "warm", "dial", "do", "ping", "hold", "close_err", "attempts")
+CONN_REPLAY = "bin/check C05 --replay <this file>   (or: conndown --serial --cases <file with the conn_case line>)"
+
+
+def nl(xs):
+    return coq_list(["%d%%N" % x for x in xs])
+
+
+def status_class(code):
+    return 0 if code <= 0 else code // 100
+
+
+def conncase_to_coq(c):
+    o = c["obs"]
+    return ("{| cc_id := %d; cc_pushes := %d%%N; cc_warm := %s; cc_dial := %s; cc_do := %s; cc_ping := %s; cc_hold := %d%%N; cc_attempts := %d%%N; "
+            "cc_obs := {| co_status := %s; co_all_completed := %s; co_dial_ok := %d%%N; co_dial_refused := %d%%N; co_do_ok := %d%%N; co_do_fail := %d%%N; "
+            "co_rows_sent := %d%%N; co_rows_stored := %d%%N; co_goroutines := (%d)%%Z |} |}" % (
+                c["id"], c["pushes"], b(c.get("warm", False)), nl(c.get("dial") or []), nl(c.get("do") or []), nl(c.get("ping") or []),
+                {"": 0, "ping-first": 1, "ping-waiting": 2}[c.get("hold", "") or ""], c["attempts"],
+                nl([status_class(x) for x in o.get("status") or []]), b(o["issued"] == o["completed"] and not o.get("warm_fail")),
+                o["dial_ok"], o["dial_refused"], o["do_ok"], o["do_fail"], o["rows_sent"], o["rows_stored"], max(o.get("goroutines_left", -1), -1)))
+
+
+def conn_eval(ck, name, cases):
+    txt = ("From Coq Require Import List String ZArith NArith Bool.\n"
+           "From Qryn Require Import model.IngestRobust model.IngestPipe model.IngestFraming model.IngestShared model.IngestConn gen.GenGoroutinesWriter.\n"
+           "Import ListNotations.\nOpen Scope Z_scope.\n"
+           "Definition ccases : list ccase := [\n  " + ";\n  ".join(conncase_to_coq(c) for c in cases) + "].\n"
+           "Definition M := Eval vm_compute in conn_mismatches gen_fetch_loop gen_ping_prog ccases.\nPrint M.\n"
+           "Definition V := Eval vm_compute in conn_spec_violations ccases.\nPrint V.\n"
+           "Definition W := Eval vm_compute in conn_wedges gen_fetch_loop gen_ping_prog ccases.\nPrint W.\n")
+    rc, out = ck.coq_eval(name, txt)
+    flat = " ".join(out.split())
+    res = []
+    for nm in ("M", "V", "W"):
+        m = re.search(r"\b%s = \[(.*?)\]\s*: list Z" % nm, flat)
+        if rc != 0 or not m:
+            ck.obligation("conndown cases evaluated inside Coq", False, out[-1500:])
+            return None
+        res.append([int(x) for x in re.findall(r"-?\d+", m.group(1))])
+    return res
+
+
+def conn_start(ck):
+    """harness conndown (mostly sleeping: refused dials and retries wait a second each) runs beside the other streams"""
+    import threading
+    rp = json.load(open(ck.replay)) if ck.replay else {}
+    if ck.replay and "conn_case" not in rp:
+        return None
+    box = {}
+
+    def job():
+        try:
+            if not ck.go_build("conndown"):
+                box["build"] = ck.build_out[-1500:]
+                return
+            inp = os.path.join(ck.work, "conn_in.jsonl")
+            if ck.replay:
+                open(inp, "w").write(json.dumps(rp["conn_case"]) + "\n")
+                args = ["--serial", "--cases", inp]
+            else:
+                gp = os.path.join(ck.work, "conn_gen.jsonl")
+                ck.go_run("conndown", ["--gen-only", "--seed", ck.seed, "--n", ck.n(30, 400), "--out", gp], timeout=120)
+                cases = []
+                for c in (load(CONN_CORPUS) if os.path.exists(CONN_CORPUS) else []):
+                    c["id"] += 6000000
+                    c["class"] = "corpus/" + c["class"]
+                    cases.append(c)
+                cases += load(gp) if os.path.exists(gp) else []
+                with open(inp, "w") as f:
+                    for c in cases:
+                        f.write(json.dumps({k: c[k] for k in CONN_KEYS if k in c}) + "\n")
+                args = ["--cases", inp]
+            outp = os.path.join(ck.work, "conn_out.jsonl")
+            rc, out = ck.go_run("conndown", args + ["--out", outp], timeout=600)
+            box.update(rc=rc, out=out, outp=outp)
+        except Exception as e:
+            box["exc"] = repr(e)
+    t = threading.Thread(target=job)
+    t.start()
+    return t, box
+
+
+def run_conn(ck, started):
+    """the ClickHouse connection misbehaves with requests in flight (harness conndown): dials refused, INSERTs failing / timing out, the watchdog ping failing,
+    Close failing -- every push must be answered, every promise completed, no goroutine left; compared with conn_expected over the REGENERATED fetchLoopIteration"""
+    if started is None:
+        return
+    t, box = started
+    t.join()
+    if "exc" in box or "build" in box:
+        ck.obligation("harness conndown builds against the repository and runs", False, box.get("exc") or box.get("build"))
+        return
+    lines = load(box["outp"]) if os.path.exists(box["outp"]) else []
+    cases = [c for c in lines if "obs" in c]
+    census = [c["census"] for c in lines if "census" in c]
+    if box["rc"] != 0 or not cases:
+        ck.obligation("harness conndown ran to the end", False, "exit %s; stderr tail: %s" % (box["rc"], box["out"][-1500:]))
+        ck.violation({"property": "C05", "kind": "the process died while the connection of an insert service misbehaved with requests in flight (un-recovered panic / nil client in the Run goroutine?)",
+                      "stderr": box["out"][-2500:], "cases_file": os.path.join(ck.work, "conn_in.jsonl"), "replay": "conndown --cases <cases_file>"})
+        return
+    res = conn_eval(ck, "C05_conn_0", cases)
+    if res is None:
+        return
+    mism, viol, wedge = res
+    byid = {c["id"]: c for c in cases}
+    # anything suspicious is run again, alone and one case at a time (goroutine census per case); only what shows again counts
+    def size(c):
+        return (c["pushes"], len(c.get("dial") or []) + len(c.get("do") or []) + len(c.get("ping") or []), c.get("rows", 1), c["id"])
+    suspects = sorted(set(mism + viol), key=lambda i: size(byid[i]))
+    if suspects and not ck.replay:
+        redone, m2, v2, pos = set(), set(), set(), 0
+        for rnd, width in enumerate((4, 8)):
+            chosen = suspects[pos:pos + width]
+            pos += width
+            if not chosen:
+                break
+            sp = os.path.join(ck.work, "conn_suspects_%d.jsonl" % rnd)
+            with open(sp, "w") as f:
+                for i in chosen:
+                    f.write(json.dumps({k: byid[i][k] for k in CONN_KEYS if k in byid[i]}) + "\n")
+            so = os.path.join(ck.work, "conn_suspects_%d_out.jsonl" % rnd)
+            rc, out = ck.go_run("conndown", ["--serial", "--deadline-ms", 9000, "--cases", sp, "--out", so], timeout=900)
+            again = [c for c in (load(so) if os.path.exists(so) else []) if "obs" in c]
+            res2 = conn_eval(ck, "C05_conn_confirm_%d" % rnd, again) if again and rc == 0 else None
+            if res2 is None:
+                break       # the confirmation run itself failed: the first observations stand
+            for c in again:
+                byid[c["id"]] = c
+            redone |= set(c["id"] for c in again)
+            m2 |= set(res2[0])
+            v2 |= set(res2[1])
+            if m2 or v2:
+                break       # something showed again: report it (the smallest confirmed case)
+        if redone:
+            confirmed = bool(m2 or v2)
+            mism = [i for i in mism if i in m2 or (i not in redone and confirmed)]
+            viol = [i for i in viol if i in v2 or (i not in redone and confirmed)]
+            if not confirmed and pos < len(suspects):
+                ck.obligation("conndown: suspicious scenarios re-run alone", False, "%d suspicious scenarios, the %d re-run alone did not show again, the rest was not re-run: %s"
+                              % (len(suspects), len(redone), suspects[pos:pos + 10]))
+    left = sum(x.get("goroutines_left", 0) for x in census)
+    ck.obligation("the model's interpreter over the REGENERATED fetchLoopIteration / ping answers every push of the %d connection scenarios (no promise taken out of svc.results "
+                  "and not completed, no nil client in the Run goroutine)" % len(cases), not wedge,
+                  "scenarios in which the regenerated program drops a promise (ids; they run against the real code below): %s" % wedge[:12])
+    ck.obligation("connection correspondence: on %d scenarios (dials refused, INSERTs failing / running into the write timeout, watchdog pings failing, Close failing, with "
+                  "requests in flight) the real router / doPush / InsertServiceV2 answer with the status classes, make the dials and INSERTs and store the rows that "
+                  "conn_expected computes from the regenerated programs" % len(cases), not mism, "mismatching conndown case ids: %s" % mism[:10])
+    ck.obligation("connection oracle: every push is answered within the deadline, every promise handed out by an insert service is completed, no goroutine stays in "
+                  "request code, an acknowledged push is stored exactly once, a push is acknowledged when one of the configured attempts is accepted",
+                  not viol and (left <= 0 or bool(viol)), "violating conndown case ids: %s; goroutines left in request code after the run: %d" % (viol[:10], left))
+
+    if viol:
+        w = min((byid[i] for i in viol), key=size)
+        o = w["obs"]
+        un = sum(1 for x in o.get("status") or [] if x <= 0)
+        ck.violation({"property": "C05", "kind": "a push is not answered / a promise is never completed when the ClickHouse connection misbehaves: %d of %d pushes without an HTTP "
+                      "response within the deadline, promises issued %d completed %d, goroutines left in request code %s, statuses %s" % (
+                          un, w["pushes"], o["issued"], o["completed"], o.get("goroutines_left"), o.get("status")),
+                      "conn_case": {k: w[k] for k in CONN_KEYS if k in w}, "observed": o, "others": [i for i in viol if i != w["id"]][:20],
+                      "explanation": "conn_spec_ok (model/IngestConn.v). The case's node has its own insert services over a scripted connection: the k-th dial / INSERT / ping of a "
+                                     "service does what dial[k] / do[k] / ping[k] says (0 ok; dial 1 refused; do / ping 1 error, 2 blocks until the write timeout); warm = a push "
+                                     "with the database up comes first; hold = the harness waits for the scripted ping failure before / after it sends the pushes",
+                      "replay": CONN_REPLAY})
+    elif mism:
+        w = min((byid[i] for i in mism), key=size)
+        ck.violation({"property": "C05", "kind": "connection scenarios: model and implementation disagree on a status class, on the dials / INSERTs made or on the rows stored",
+                      "conn_case": {k: w[k] for k in CONN_KEYS if k in w}, "observed": w["obs"], "others": [i for i in mism if i != w["id"]][:20],
+                      "broken": "correspondence IngestConn.conn_expected vs doPush / InsertServiceV2", "replay": CONN_REPLAY})
+    elif left > 0:
+        ck.violation({"property": "C05", "kind": "goroutines stay in request code after the connection scenarios although every push was answered", "stacks": census[0].get("stacks"),
+                      "cases_file": os.path.join(ck.work, "conn_in.jsonl"), "replay": "conndown --serial --cases <cases_file>"}, no_input=True)
+    hist = {}
+    distinct = set()
+    for c in cases:
+        k = c["class"].replace("warm/", "").replace("/close-error", "").replace("corpus/", "")
+        hist[k] = hist.get(k, 0) + 1
+        distinct.add(hashlib.sha1(json.dumps([c.get(k) for k in CONN_KEYS if k not in ("id", "class")], sort_keys=True).encode()).hexdigest())
+    ck.coverage["evaluations"] += len(cases)
+    ck.coverage["distinct_nontrivial"] += len(distinct)
+    ck.coverage["rule"] += ("conn: scenarios with at least one scripted fault of the connection (refused dial, failed / timed-out INSERT, failed ping) met by a push in flight; "
+                            "distinct by sha1 of the scenario. ")
+    ck.extra["conndown_distribution"] = {
+        "classes": dict(sorted(hist.items())), "route": {k: sum(1 for c in cases if c["kind"] == k) for k in ("lokijson", "prom", "pprof", "zipkin")},
+        "warm_(open_connection_when_the_faults_start)": sum(1 for c in cases if c.get("warm")),
+        "refused_dials_met_by_a_waiting_request": sum(c["obs"]["refused_waiting"] for c in cases),
+        "scenarios_with_a_refused_dial_while_a_request_waits": sum(1 for c in cases if c["obs"]["refused_waiting"] > 0),
+        "failed_pings_with_a_request_waiting": sum(c["obs"]["ping_fail_waiting"] for c in cases),
+        "failed_or_timed_out_INSERTs": sum(c["obs"]["do_fail"] for c in cases),
+        "pushes_answered_5xx_after_all_attempts": sum(1 for c in cases for x in c["obs"]["status"] if x >= 500),
+        "pushes": sum(c["pushes"] for c in cases), "slowest_answer_ms": max(c["obs"]["max_ms"] for c in cases)}
+    ck.add_samples([{"class": c["class"], "scenario": {k: c[k] for k in CONN_KEYS if k in c and k not in ("id", "class")},
+                     "obs": {k: c["obs"].get(k) for k in ("status", "max_ms", "issued", "completed", "dial_refused", "refused_waiting", "do_ok", "do_fail", "rows_stored")}}
+                    for c in cases if c["obs"]["refused_waiting"] > 0][:1])
+
+
 def crosses(shape):
     """the 1000-point hand-over of the remote-write decoder falls strictly inside a series"""
     points = 0
@@ -1111,6 +1321,15 @@ def run(ck):
 
 def run_streams(ck):
     rp = json.load(open(ck.replay)) if ck.replay else {}
+    conn = conn_start(ck)
+    try:
+        if "conn_case" not in rp:
+            run_other_streams(ck, rp)
+    finally:
+        run_conn(ck, conn)
+
+
+def run_other_streams(ck, rp):
     if not ("pipe_case" in rp or "limread_case" in rp or "shared_case" in rp):
         run_harness(ck)
         if not ck.replay:
